@@ -31,6 +31,7 @@ type Case struct {
 	Seed      int64  `json:"seed"`
 	Dwell     int    `json:"dwell"`
 	AddSource bool   `json:"add_source,omitempty"`
+	FailEvery int    `json:"fail_every,omitempty"` // the destination reports a short write + error on every n-th call
 }
 
 type planned struct {
@@ -115,6 +116,7 @@ func runCase(cs Case, st *stats) (key, expected, observed string) {
 		total += len(plans[g])
 	}
 	w := recw.New(total+16, cs.Dwell)
+	w.FailEvery = cs.FailEvery
 	root := logger.New(logrun.NewHandler(cs.Kind, w, cs.Threshold, cs.AddSource))
 	children := make([]*logger.Logger, len(childChains))
 	for i, ch := range childChains {
@@ -246,7 +248,7 @@ type mon struct{}
 func (mon) Name() string { return "logatomic" }
 
 func (mon) Level(string) (string, string) {
-	return "exploration", "concurrent runs: handlers {nano,text,json} × thresholds (5) × G ∈ {2,4,8,32} goroutines, each running a seeded op list (log at one of 5 levels through the root, a pre-derived child or a child derived on the fly; line sizes tiny … 40 KiB incl. 16 KiB±100 so that pooled buffers are dropped and recycled) into a recording writer that counts overlapping Write calls and dwells inside; offline: multiset of time-stripped payloads == multiset of alone-replay lines, #Write == #enabled records; plain at GOMAXPROCS 2/4/16 and under -race. distinct_nontrivial = distinct (handler, threshold, G, seed) runs in which output of different goroutines alternated at least once"
+	return "exploration", "concurrent runs: handlers {nano,text,json} × thresholds (5) × G ∈ {2,4,8,32} goroutines, each running a seeded op list (log at one of 5 levels through the root, a pre-derived child or a child derived on the fly; line sizes tiny … 40 KiB incl. 16 KiB±100 so that pooled buffers are dropped and recycled) into a recording writer that counts overlapping Write calls and dwells inside (in a third of the runs it also reports short writes with an error now and then); offline: multiset of time-stripped payloads == multiset of alone-replay lines, #Write == #enabled records; plain at GOMAXPROCS 2/4/16 and under -race. distinct_nontrivial = distinct (handler, threshold, G, seed) runs in which output of different goroutines alternated at least once"
 }
 
 type shardArgs struct {
@@ -282,6 +284,9 @@ func (mn mon) Run(sh drv.Shard, c *drv.Ctx) {
 			n++
 			g := gs[(run+n)%len(gs)]
 			cs := Case{Kind: kind, Threshold: (run + n) % 5, G: g, PerG: a.PerG * 8 / (g + 4), Seed: r.Int63(), Dwell: r.Intn(4), AddSource: r.Intn(4) == 0}
+			if r.Intn(3) == 0 {
+				cs.FailEvery = 2 + r.Intn(5)
+			}
 			c.Progress(fmt.Sprintf("%+v", cs), true)
 			before := st.switches
 			k, e, o := runCase(cs, st)
